@@ -98,7 +98,7 @@ function requests(c) {
   let base;
   if (c.sp === 'G') base = { src: G.render(c), ts: !!c.ts, opts: JSON.stringify(c.o || {}) };
   else if (c.sp === 'S') { const t = c.s.map((i) => (c.x ? SYM_X : SYM)[i][1]).join(''); base = { src: `const { x, y, Comp } = __env.bound;\nconst a = <div>${t}</div>;\nconst b = <div>{x}${t}{y}</div>;\nconst d = <Comp>${t}<i/></Comp>;\n${!c.x && c.s.some((i) => SYM[i][0] === 'DQ') ? '' : `const e = <p title="${t}" v-foo="${t}" />;\n`}`, opts: '{}' }; }
-  else if (c.sp === 'H') base = { src: HS.renderHistory(c.items, !!c.ts), ts: !!c.ts, opts: JSON.stringify(c.ts ? { resolveType: true, optimize: !!c.opt } : { optimize: !!c.opt }) };
+  else if (c.sp === 'H') base = { src: c.crlf ? HS.renderHistory(c.items, !!c.ts).replace(/\n/g, '\r\n') : HS.renderHistory(c.items, !!c.ts), ts: !!c.ts, opts: JSON.stringify(c.ts ? { resolveType: true, optimize: !!c.opt } : { optimize: !!c.opt }) };
   else if (c.sp === 'T') base = { src: graphSrc(c.g, c.use), ts: true, opts: JSON.stringify({ resolveType: true }) };
   else base = { src: nestSrc(c.kind, c.depth), opts: JSON.stringify({ optimize: true }) };
   return [base, Object.assign({}, base), Object.assign({}, base, { marks: 1 }), Object.assign({}, base, { marks: 7 })];
@@ -167,6 +167,7 @@ function spaces(tier) {
       bounds: { items: HG.ALL.length, ts_items: Object.keys(HS.T), note: 'every item of explorer H alone under optimize off/on; every TypeScript item alone and every ordered pair of them with resolveType on (incl. degenerate defineComponent calls)' },
       *gen() {
         for (const it of HG.ALL) for (const opt of [false, true]) yield { sp: 'H', items: [it], opt };
+        for (const it of HG.ALL) yield { sp: 'H', items: [it], opt: false, crlf: true }; // the same module with CRLF line endings
         const T = Object.keys(HS.T).map((t) => ({ t }));
         for (const a of T) for (const opt of [false, true]) yield { sp: 'H', items: [a], ts: true, opt };
         for (const a of T) for (const b of T) yield { sp: 'H', items: [a, b], ts: true };
@@ -205,6 +206,6 @@ module.exports = {
   secondPass: true, detOf,
   secondPassRequest: (c) => (c.sp === 'X' || c.sp === 'Y' ? requests(c)[1] : requests(c)[0]),
   spaces, requests, judge, shrink,
-  caseKey: (c) => (c.sp === 'Y' ? `Y:${c.a} then ${c.b}` : c.sp === 'S' ? (c.x ? 'SX:' : 'S:') + c.s.map((i) => (c.x ? SYM_X : SYM)[i][0]).join('.') : c.sp === 'H' ? 'H:' + HG.key(c.items) + (c.ts ? ' {tsx resolveType}' : '') + (c.opt ? ' {optimize}' : '') : c.sp === 'X' ? `X:${c.shape}: ${c.first} then ${c.second}` : c.sp === 'G' ? G.key(c) : c.sp === 'N' ? `N:${c.kind}×${c.depth}` : `T:${c.use}: ${graphKey(c.g)}`),
+  caseKey: (c) => (c.sp === 'Y' ? `Y:${c.a} then ${c.b}` : c.sp === 'S' ? (c.x ? 'SX:' : 'S:') + c.s.map((i) => (c.x ? SYM_X : SYM)[i][0]).join('.') : c.sp === 'H' ? 'H:' + HG.key(c.items) + (c.ts ? ' {tsx resolveType}' : '') + (c.opt ? ' {optimize}' : '') + (c.crlf ? ' {CRLF}' : '') : c.sp === 'X' ? `X:${c.shape}: ${c.first} then ${c.second}` : c.sp === 'G' ? G.key(c) : c.sp === 'N' ? `N:${c.kind}×${c.depth}` : `T:${c.use}: ${graphKey(c.g)}`),
   depth: (c) => (c.sp === 'Y' ? 1 : c.sp === 'S' ? c.s.length : c.sp === 'H' ? c.items.length : c.sp === 'X' ? 1 : c.sp === 'G' ? c.attrs.length + (c.ch !== 'none') : c.sp === 'N' ? DEPTHS.indexOf(c.depth) : c.g.filter((d) => d.k !== 'lit' && d.k !== 'lits').length),
 };
